@@ -1,6 +1,6 @@
 import GoNfsd.Model.Reveal
 
-/-! M11: under the release-after-flush discipline, in every reachable state the keys written by
+/-! M14: under the release-after-flush discipline, in every reachable state the keys written by
     pending transactions are still locked by their writers; so a read under the lock by anybody
     else returns exactly what recovery would find. -/
 namespace GoNfsd.Model.Reveal
